@@ -387,7 +387,48 @@ def rule_7(ctx):
             ctx.expect(untouched, anchor, f'{fname}: written {" then ".join(order)}, other files untouched',
                        f'persisting to {fname!r} changed the file {"other" + fname!r}')
             n += 1
-    ctx.floor(40, 'file histories')
+    # persisted, overwritten through every public route, persisted again: the file holds the state of the LAST persist; constants
+    # that are equal for Python but not for the spreadsheet (1, TRUE, 1.0; 0, FALSE) come back as what they were
+    typed = {'A1': 1, 'A2': True, 'A3': 1.0, 'A4': 0, 'A5': False, 'A6': 10, 'B1': '=A1&"|"&A2&"|"&A3', 'B2': '=IF(A2=TRUE,"yes","no")', 'B3': '=ISNUMBER(A2)',
+             'B4': '=A4&"/"&A5', 'B5': '=SUM(A1:A6)', 'B6': '=A6*2'}
+    routes = [('Evaluator.set_cell_value', lambda wb, a, v: wb.set(a, v)), ('Model.set_cell_value', lambda wb, a, v: wb.set_model(a, v)),
+              ('Evaluator.set_cell_value with an XLCell address', lambda wb, a, v: wb.set_cell(a, v)),
+              ('Model.set_cell_value with an XLCell address', lambda wb, a, v: wb.set_cell(a, v, through_model=True))]
+    for fname in ('typed.json', 'typed.gz'):
+        for rname, setter in routes:
+            fs, docs = vfs.VFS(), vfs.Documents()
+            models = dict(fs.models())
+            models.update(docs.models())
+            wb = W.Workbook(ctx, typed, models=models)
+            want_first = {a: wb.value('Sheet1!' + a) for a in ('B1', 'B2', 'B3', 'B4', 'B5', 'B6')}
+            out = wb._run(mm, {'m': wb.model, 'f': fname}, 'return m.persist_to_json_file(f)')
+            setter(wb, 'Sheet1!A6', 20)
+            setter(wb, 'Sheet1!A7', 5)
+            out2 = wb._run(mm, {'m': wb.model, 'f': fname}, 'return m.persist_to_json_file(f)')
+            res = wb._run(mm, {'f': fname}, 'n = Model()\nn.construct_from_json_file(f, build_code=True)\nreturn n')
+            label = f'{fname}: persisted, A6 and A7 set through {rname}, persisted again, restored'
+            n += 1
+            if out.end != 'return' or out2.end != 'return' or res.end != 'return' or not isinstance(res.value, Rec):
+                ctx.bad(anchor, label, f'persist / persist / restore end in {out.end}, {out2.end}, {res.end} {res.value!r}')
+                continue
+            restored = W.Workbook.adopt(wb, res.value)
+            wrong = []
+            final = dict(typed)
+            final.update({'A6': 20, 'A7': 5})
+            fresh = W.Workbook(ctx, final)
+            expect = {a: fresh.value('Sheet1!' + a) for a in want_first}          # what a model built directly from the final contents gives
+            for a, w in expect.items():
+                got = restored.value('Sheet1!' + a)
+                if not S.same(got, w):
+                    wrong.append(f'{a} = {typed[a]} evaluates to {got!r} instead of {w!r}')
+            cells = restored.model.f.get('cells')
+            for a, w in (('A1', 1), ('A2', True), ('A3', 1.0), ('A4', 0), ('A5', False), ('A6', 20), ('A7', 5)):
+                c = cells.get('Sheet1!' + a) if isinstance(cells, dict) else None
+                v = c.f.get('value') if isinstance(c, Rec) else '<no cell>'
+                if type(v) is not type(w) or v != w:
+                    wrong.append(f'{a} holds {v!r} ({type(v).__name__}) instead of {w!r} ({type(w).__name__})')
+            ctx.expect(not wrong, anchor, label, f'{label}: ' + '; '.join(wrong[:4]) + ' - the restored model is the model as it was persisted last, value by value')
+    ctx.floor(48, 'file histories')
 
 
 RULES = [
